@@ -1,7 +1,7 @@
 (* Theorems about the GENERATED arithmetic kernels (ArithGen.v, regenerated from /repo on every run: only the units of this
    property are generated).  Compiled by the check after regeneration; not part of the static build. *)
 Require Import Pams.Prelude Pams.Tick Pams.Match Pams.Market Pams.OrderPy Pams.Sim.
-From Coq Require Import QArith Qround.
+From Coq Require Import QArith Qround Lia.
 Require Import PamsGen.ArithGen.
 Open Scope Z_scope.
 
@@ -22,7 +22,10 @@ Proof.
   destruct (price s) as [ps|] eqn:Ps, (price b) as [pb|] eqn:Pb; cbn [negb orb andb oq_le]; try reflexivity.
   set (sm := market_volume (s :: sr)). set (bm := market_volume (b :: br)).
   set (sl := levels (s :: sr)). set (bl := levels (b :: br)).
-  destruct (sm =? bm) eqn:E; cbn [negb].
+  (* the three cases of the two market-order volumes, whatever the order in which the source tests them *)
+  destruct (sm <? bm) eqn:E1; destruct (sm =? bm) eqn:E; cbn [negb];
+    try (exfalso; apply Z.ltb_lt in E1; apply Z.eqb_eq in E; lia);
+    [cbn zeta; f_equal; rewrite ?Z.geb_leb; reflexivity| |cbn zeta; f_equal; rewrite ?Z.geb_leb; reflexivity].
   - (* equal market volumes: a lowest ask level and a highest bid level must exist and cross *)
     assert (Ls : (Z.of_nat (length sl) =? 0) = match sl with [] => true | _ => false end) by (destruct sl; reflexivity).
     assert (Lb : (Z.of_nat (length bl) =? 0) = match bl with [] => true | _ => false end) by (destruct bl; reflexivity).
@@ -35,7 +38,6 @@ Proof.
         assert (exists a, qmin_list (x :: xs) = Some a) as [a Ha] by (simpl; destruct (qmin_list xs); eauto).
         assert (exists c, qmax_list (y :: ys) = Some c) as [c Hc] by (simpl; destruct (qmax_list ys); eauto).
         rewrite Ha, Hc. reflexivity.
-  - destruct (sm <? bm); cbn zeta; f_equal; rewrite Z.geb_leb; reflexivity.
 Qed.
 
 (* with a limit order at the head of either book nothing but the two best prices matters, and two limit prices are comparable *)
